@@ -69,6 +69,15 @@ def oracle_fails(pid, rec):
 NOT_APPLICABLE = {}
 
 PROPS = {
+    "C06": {
+        "rule": "every operator x every ordered pair of the ~30-value pool through variables, as literals and mixed; truthiness of every pool value (if and unless) and of undefined / nested-undefined paths; if/elsif chains of 1..4 arms under all truth assignments with and without else; unless/else; case/when with 1..4 arms, comma and `or` lists, duplicates and overlaps; and/or chains of length 1..4 in every connective pattern under all truth assignments (flat source, grouped by the parser under test and by the Lean model of parse_condition); random nested conditionals; non-trivial = distinct (template,data) with a non-empty result",
+        "explanation": "Lean theorems C06_* about the model of if_block.rs / case_block.rs (exactly one branch, unless = negated if, elsif chains, case/when first match, truthiness table, operators as functions of valueEq/valueCmp, contains, empty/blank, precedence and associativity of and/or in the model of parse_condition, malformed conditions rejected) + differential run against the real crate, plus an independent truth-table spec for chains and and/or shapes",
+        "exhaustive": True,
+        "manifest_text": "Lean 4 theorems for all conditions, branches, values and stacks: a conditional renders exactly one branch (if/unless/elsif/case, first match wins, else otherwise, nothing otherwise), unless is the negation of if, truthiness = not nil and not false (stated with the one narrowing the code makes: the empty/blank marker literals are falsy), every operator is the stated function of the value model's equality/ordering, contains per operand kind, and the model of parse_condition groups `x or y and z` as `x or (y and z)` with left-associative chains. Tied to /repo by running the model and an independent truth-table spec against the real crate on the property's exhaustive enumeration (7 operators x 31^2 pairs x 3 forms, all truth assignments of chains <= 4, and/or patterns <= 4).",
+        "manifest_note": "Trusted: Lean kernel + allowed axioms, theorem statements, hand-written model (validated differentially), harness/driver. valueEq/valueCmp themselves are the subject of C11. The general (arbitrary length) grouping theorem for parse_condition is proved for the shapes the property names (3-atom mixed shapes, homogeneous chains of 4), longer chains are covered by the correspondence.",
+        "technique": "Lean 4 proof (decision logic stated outright) + differential correspondence",
+        "design_ref": "DESIGN.md section 7 C06",
+    },
     "C18": {
         "rule": "every valid operation sequence up to length 3 (quick) / 4 (thorough) over {push plain d, push sandbox d, push global, pop, assign-global k v, set-counter k v} with d over all 9 maps on {a,b} x {absent, scalar, object}, plus random sequences of length 4..6 over random bases; after EVERY operation the state is observed by try_get and get of all 8 paths of length 1..2, roots() and both counters; non-trivial = distinct sequences (all of them observe a non-empty state)",
         "explanation": "Lean theorems C18_* (refinement of try_get to an abstract stack-of-maps lookup; get = try_get with error, never the find panic; transparency; sandbox hides; set_global lands in the nearest global layer and is visible through plain scopes; pop restores; counters shared; roots exact) about the model of runtime/stack.rs + runtime.rs, and a differential run executing every operation sequence on the real frame types",
